@@ -62,9 +62,39 @@ PwL    == Pw(<<K32, Seg("m", 9)>>)        \* 41 bytes: equals PwX32 for revision
 PwL127 == Pw(<<K32, N95>>)                \* exactly 127 bytes
 PwXL   == Pw(<<K32, N95, Seg("t", 6)>>)   \* 133 bytes: equals PwL127 for revisions 5-6
 
-Users  == {PwE, PwU, PwLat, PwL, PwXL}
-Owners(u) == {PwE, PwO, u, PwX32, PwL127}
-Attempts(p) == {p.user, p.owner, PwW, PwE, PwX32, PwL127}
+(* Revisions 5-6 only: passwords whose UTF-8 form has a k-byte character (k = 2, 3, 4) at the 127-byte cut of     *)
+(* Algorithm 2.A (b).  The truncation is a truncation of the BYTE string (AtMost127 keeps the first two segments):  *)
+(* the 95-byte segment H(k,j) ends with the first j bytes of the character, the tail T(k,j,_) starts with its     *)
+(* remaining k-j bytes.  U(k,j) is the tail of a sibling character with the same first j bytes (a different       *)
+(* password with the same first 127 bytes); C(k,j) is H(k,j) without the j bytes (the password cut at the          *)
+(* character boundary - NOT the same password).  F(k) ends with a whole k-byte character at byte 127; G(k) is F(k)  *)
+(* without it.  (Harness: U+00E9 / U+00E3, U+20AC / U+20A9, U+20000 / U+2000B - SASLprep maps them to themselves.) *)
+KJ == {<<2, 1>>, <<3, 1>>, <<3, 2>>, <<4, 1>>, <<4, 2>>, <<4, 3>>}
+SId(c, k, j) == c \o ToString(k) \o ToString(j)
+HSeg(k, j) == Seg(SId("H", k, j), 95)
+TSeg(k, j, extra) == Seg(SId("T", k, j), (k - j) + extra)
+USeg(k, j) == Seg(SId("U", k, j), (k - j) + 3)
+CSeg(k, j) == Seg(SId("C", k, j), 95 - j)
+FSeg(k) == Seg("F" \o ToString(k), 95)
+GSeg(k) == Seg("G" \o ToString(k), 95 - k)
+PwS(k, j)   == Pw(<<K32, HSeg(k, j), TSeg(k, j, 5)>>)     \* > 127 bytes, the character straddles the cut
+PwE128(k)   == Pw(<<K32, HSeg(k, k - 1), TSeg(k, k - 1, 0)>>)  \* exactly 128 bytes ending in the character
+PwF(k)      == Pw(<<K32, FSeg(k)>>)                       \* exactly 127 bytes ending in the character
+PwSV(k, j)  == Pw(<<K32, HSeg(k, j), USeg(k, j)>>)        \* same first 127 bytes, sibling character
+PwCut(k, j) == Pw(<<K32, CSeg(k, j)>>)                    \* cut at the character boundary: 127 - j bytes
+PwFT(k)     == Pw(<<K32, FSeg(k), Seg("t", 6)>>)          \* PwF plus a tail
+PwFCut(k)   == Pw(<<K32, GSeg(k)>>)                       \* PwF without its last character
+Straddle == {PwS(kj[1], kj[2]) : kj \in KJ} \cup {PwE128(k) : k \in 2..4} \cup {PwF(k) : k \in 2..4}
+SplitSegs == {HSeg(kj[1], kj[2]) : kj \in KJ}
+\* the other passwords worth trying against a password of the straddle family
+Near(pw) == UNION ({IF pw \in {PwS(kj[1], kj[2]), PwE128(kj[1])} /\ (pw = PwS(kj[1], kj[2]) \/ kj[2] = kj[1] - 1)
+                       THEN {PwSV(kj[1], kj[2]), PwCut(kj[1], kj[2])} ELSE {} : kj \in KJ}
+                  \cup {IF pw = PwF(k) THEN {PwFT(k), PwFCut(k)} ELSE {} : k \in 2..4})
+
+Users(R)  == {PwE, PwU, PwLat, PwL, PwXL} \cup (IF R >= 5 THEN Straddle ELSE {})
+Owners(R, u) == IF u \in Straddle THEN {PwO, u}
+                ELSE {PwE, PwO, u, PwX32, PwL127} \cup (IF R >= 5 /\ u = PwU THEN Straddle ELSE {})
+Attempts(p) == {p.user, p.owner, PwW, PwE, PwX32, PwL127} \cup Near(p.user) \cup Near(p.owner)
 
 ItemSeq == <<"str.dict", "str.nested", "str.top", "str.streamdict", "stream", "stream.meta",
              "stream.xref", "str.encdict", "str.id">>
@@ -157,7 +187,7 @@ Configure ==
 
 WriteDict ==
     /\ pc = "cfg"
-    /\ \E u \in Users : \E o \in Owners(u) :
+    /\ \E u \in Users(cfg.R) : \E o \in Owners(cfg.R, u) :
           /\ cfg.R <= 4 => ((o = PwE) <=> absent)
           /\ pws' = [user |-> u, owner |-> o]
           /\ w' = [iso |-> IsoWrite(cfg, pws'), lopdf |-> LopdfWrite(cfg, pws')]
@@ -291,7 +321,9 @@ Defs(c, ab) ==
                  D("r.perms", PermsDecrypted(fk, Ref("Perms", 16))),
                  D("r.perms.ok", PermsValid(fk, Ref("Perms", 16), sP, c.meta))>> \o ItemDefs(c, n, fk)
 
-SegsJson(p) == [i \in 1..Len(p.a) |-> [id |-> p.a[i].s, len |-> p.a[i].n[1]]]
+\* split = 1: the segment ends inside a multi-byte character
+SegsJson(p) == [i \in 1..Len(p.a) |-> [id |-> p.a[i].s, len |-> p.a[i].n[1],
+                                       split |-> IF p.a[i] \in SplitSegs THEN 1 ELSE 0]]
 
 EmitInv ==
     /\ (Emit /\ pc = "cfg") =>
